@@ -78,6 +78,7 @@ func main() {
 		fmt.Fprintf(os.Stderr, "bad tier %q\n", *tier)
 		os.Exit(2)
 	}
+	verifRoot = *verif
 	seed, _ := strconv.Atoi(os.Getenv("VERIF_SEED"))
 	os.Exit(runProperty(p, *tier, *repo, *verif, seed))
 }
